@@ -4,7 +4,7 @@ worker; /repo is only read).  Any VIOLATION line here is an alarm on the unchang
 usage: multiseed.py [-j N] [-t quick|thorough] seed [seed ...]"""
 import sys, os, json, subprocess, shutil, threading, queue
 
-VERIF = '/verif'
+VERIF = os.path.dirname(os.path.dirname(os.path.abspath(__file__)))   # the tree this script belongs to (a snapshot under vp run works on itself)
 args = sys.argv[1:]
 N, tier = 6, 'quick'
 while args and args[0] in ('-j', '-t'):
@@ -24,7 +24,7 @@ out = []
 
 
 def worker(i):
-    coq, ev, rp = f'/tmp/ms_coq{i}', f'/tmp/ms_ev{i}', f'/tmp/ms_rp{i}'
+    coq, ev, rp = f'/tmp/mseed_coq{i}', f'/tmp/mseed_ev{i}', f'/tmp/mseed_rp{i}'
     for d in (coq, ev, rp):
         shutil.rmtree(d, ignore_errors=True)
     shutil.copytree(f'{VERIF}/coq', coq, symlinks=True)
@@ -41,7 +41,7 @@ def worker(i):
             keep = []
             for v in viol:
                 path = v.split('replay=')[1].split()[0]
-                dst = f'/tmp/ms_alarm_{s}_{c}_{os.path.basename(path)}'
+                dst = f'/tmp/mseed_alarm_{s}_{c}_{os.path.basename(path)}'
                 try:
                     shutil.copy(path, dst)
                     keep.append(dst)
